@@ -108,7 +108,14 @@ impl Vm {
         // the stack trace belongs to one evaluation: a form rejected by the compiler must not
         // report the trace a failed earlier evaluation left behind
         self.last_stacktrace = None;
-        let lambda = self.compile_runnable(cell)?;
+        let lambda = match self.compile_runnable(cell) {
+            Ok(lambda) => lambda,
+            Err(e) => {
+                // the code compiled before the error is garbage
+                self.run_gc();
+                return Err(e);
+            }
+        };
         trace!("entry: \n{}", self.decompile_text(&lambda));
         let lambda = self.heap.put(lambda);
         self.ip.0 = lambda.as_ptr().unwrap();
